@@ -39,6 +39,7 @@ type c18Args struct {
 	Shards int
 	Depth  int
 	Sched  []c05Scenario `json:",omitempty"`
+	Stall  bool `json:",omitempty"` // the stalled-subscriber cases
 }
 
 func c18Alphabet() []Action {
@@ -149,6 +150,10 @@ func (c18Check) Units(tier string, seed int64) []Unit {
 		b, _ := json.Marshal(c18Args{Shard: i, Shards: shards, Depth: depth})
 		us = append(us, Unit{Name: fmt.Sprintf("seq-depth%d-first%d", depth, i), Args: b})
 	}
+	{
+		b, _ := json.Marshal(c18Args{Stall: true})
+		us = append(us, Unit{Name: "stalled-subscriber", Args: b})
+	}
 	bound := 2
 	if tier == "thorough" {
 		bound = 3
@@ -186,6 +191,10 @@ func (c18Check) Run(u Unit, w *Worker) UnitResult {
 	var a c18Args
 	json.Unmarshal(u.Args, &a)
 	res := UnitResult{Stats: map[string]int64{}}
+	if a.Stall {
+		c18Stalled("C18", w, &res)
+		return res
+	}
 	if len(a.Sched) > 0 {
 		for _, s := range a.Sched {
 			if w.Case(s.Name) {
@@ -513,4 +522,79 @@ func c18Sched(s c05Scenario, res *UnitResult) {
 			Replay: map[string]any{"scenario": sc, "choices": o.Choices}, Cost: o.Preempts*1000 + len(o.Choices)})
 	}
 	res.Samples = append(res.Samples, map[string]any{"scenario": s.Name, "executions": r.Executions, "distinct_outcomes": len(r.Outcomes), "serial_outcomes": len(r.Serial), "bound": s.Bound})
+}
+
+// c18Stalled: one subscriber stops reading (its connection blocks every further write).  Messages published to it pile
+// up, but every other connection must keep being served: other subscribers of the same channel or pattern receive the
+// messages, new subscriptions are confirmed, publishes to other channels are answered.
+func c18Stalled(prop string, w *Worker, res *UnitResult) {
+	for _, kind := range []string{"SUBSCRIBE", "PSUBSCRIBE"} {
+		id := "stalled " + kind
+		if !w.Case(id) {
+			continue
+		}
+		target := "news"
+		if kind == "PSUBSCRIBE" {
+			target = "n*"
+		}
+		wld, _, err := buildWorld(InstCfg{Conns: 4}, []Action{cmdOn(0, kind, target), cmdOn(1, kind, target)})
+		if err != nil || wld.Dead() {
+			continue
+		}
+		wld.in.conns[0].Stall()
+		add := func(what string, o StepOut) {
+			res.Findings = append(res.Findings, Finding{Prop: prop, Kind: "stalled-subscriber", Sig: "stalled-subscriber|" + kind + "|" + what,
+				Detail: fmt.Sprintf("connection c0 (%s %s) stopped reading; then %s: %s", kind, target, what, o.Brief())})
+		}
+		steps := []struct {
+			what string
+			act  Action
+			ok   func(StepOut) bool
+		}{
+			{"PUBLISH to the channel", cmdOn(2, "PUBLISH", "news", "m1"), func(o StepOut) bool { return !o.Hang && !o.Empty && !o.V.IsErr() }},
+			{"a second PUBLISH to the channel", cmdOn(2, "PUBLISH", "news", "m2"), func(o StepOut) bool { return !o.Hang && !o.Empty && !o.V.IsErr() }},
+			{"another connection subscribes to the same target", cmdOn(3, kind, target), func(o StepOut) bool { return !o.Hang && !o.Empty }},
+			{"PUBLISH to another channel", cmdOn(2, "PUBLISH", "other", "x"), func(o StepOut) bool { return !o.Hang && !o.Empty && !o.V.IsErr() }},
+			{"PUBSUB NUMSUB", cmdOn(2, "PUBSUB", "NUMSUB", "news"), func(o StepOut) bool { return !o.Hang && !o.Empty }},
+			{"a third PUBLISH to the channel", cmdOn(2, "PUBLISH", "news", "m3"), func(o StepOut) bool { return !o.Hang && !o.Empty && !o.V.IsErr() }},
+		}
+		dead := false
+		recv := make([]string, 4)
+		for _, st := range steps {
+			o := wld.Do(st.act)
+			for ci, b := range o.Others {
+				if ci < len(recv) {
+					recv[ci] += string(b)
+				}
+			}
+			if st.act.C < len(recv) {
+				recv[st.act.C] += string(o.Raw)
+			}
+			res.Stats["transitions"]++
+			if !st.ok(o) {
+				add(st.what+" got no proper reply", o)
+				dead = o.Hang
+				break
+			}
+		}
+		if !dead {
+			// the healthy subscriber c1 got m1, m2, m3 (once each, in order); c3 (subscribed after m2) got m3
+			got1 := recv[1] + string(wld.in.conns[1].Take())
+			for _, m := range []string{"m1", "m2", "m3"} {
+				if strings.Count(got1, m) != 1 {
+					add(fmt.Sprintf("the healthy subscriber received %q %d times", m, strings.Count(got1, m)), StepOut{Empty: true})
+				}
+			}
+			if i1, i2, i3 := strings.Index(got1, "m1"), strings.Index(got1, "m2"), strings.Index(got1, "m3"); i1 >= 0 && i2 >= 0 && i3 >= 0 && !(i1 < i2 && i2 < i3) {
+				add("the healthy subscriber received the messages out of order", StepOut{Empty: true})
+			}
+			if got3 := recv[3] + string(wld.in.conns[3].Take()); strings.Count(got3, "m3") != 1 {
+				add(fmt.Sprintf("the late subscriber received m3 %d times", strings.Count(got3, "m3")), StepOut{Empty: true})
+			}
+			wld.Close()
+		} else {
+			res.HangCase = id
+			return
+		}
+	}
 }
